@@ -74,6 +74,13 @@ def gen_scenario(rng, nops):
         # an item re-identified through one of its other handles, then looked at and assigned around
         k = rng.choice([2, 2, 5, 12, 4])
         ops += ['(%s %d %d)' % (rng.choice(['assignid2k', 'assignidk']), k, rng.randrange(0, 4)), '(ids)', '(dups)', '(count %s)' % E.H(rng.choice(IDPOOL[4:])), '(assignall)']
+    # after an assignment, look up a run of the automatic identifiers: each must come back as the item that carries it
+    out = []
+    for o in ops:
+        out.append(o)
+        if (o.startswith('(assignall') or o.startswith('(assignids')) and rng.random() < 0.6:
+            out += ['(item %s)' % E.H('%06x' % (0xb4da55 + k)) for k in range(rng.choice([6, 12, 20]))]
+    ops = out
     return '(annot %s (equivs %s) (ops %s))' % (E.sexp_model(m), ' '.join(equivs), ' '.join(ops))
 
 
